@@ -108,4 +108,70 @@ CHECKS = {
         level_text="Each invalid class is instantiated at random positions and nesting levels and exercised through all three entry points in random order, repeatedly and interleaved with valid types: EncodeObject/DecodeObject must return an error with n=0 leaving buffer and destination untouched, EncodedSize must panic without a memory fault, verdicts must repeat, enclosing types must be rejected too and valid neighbours keep round-tripping.",
         level_note="Classes are limited to definitions the property lists; forms frugal accepts although undocumented (Go type name as scalar annotation, *[]byte) are not asserted either way. Recursive clusters are single-use per process because descriptor caches never forget a type.",
     ),
+    "C14": dict(
+        test="TestC14",
+        quick=dict(procs=6, checks=2500),
+        thorough=dict(procs=32, checks=15000, timeout=1500),
+        rule="rapid draws: types mixing nocopy and ordinary string/binary fields (plain and optional pointer) at top level and in nested pointer/by-value structs, list-element and map-value structs (curated NcIn/NcOut plus random), "
+             "messages with value lengths 0..large in random wire order with unknown fields and trailing bytes; non-trivial = >=1 non-empty nocopy view and >=1 non-empty ordinary string/binary, one of them nested or optional-pointer; distinct by hash(type signature, message)",
+        technique="property-based testing (rapid): address/len/cap oracle over every string and binary of the decoded object against the reference parser's value extents, plus a buffer-flip metamorphic check",
+        level_text="For every decoded object all strings/binaries are collected with unsafe header reads: nocopy values must be exactly the model's value extents inside the input buffer (same address, same length, cap=len for binary), zero-length ones must not reference it, nothing else may overlap it; then every buffer byte is flipped and the object must change in exactly the nocopy fields.",
+        level_note="Trusts the reference decoder's extents; go1.23.5 string/slice header layout.",
+    ),
+    "C15": dict(
+        test="TestC15",
+        quick=dict(procs=6, checks=600, timeout=900),
+        thorough=dict(procs=16, checks=4000, timeout=2400),
+        no_universe=True,
+        mem_gb=8,
+        rule="rapid draws (curated recursive type RecS/RecL/RecSet/RecMV/RecMK/RecLL/RecH/RecMix, nesting pattern of 1-4 steps among struct->struct, ->list->struct, ->set->struct, ->map value, ->map key, ->list->list->struct, ->list->map->set->struct; depth from a boundary list 1..10^6 or uniform; "
+             "all-known or the deep part inside an unknown struct/list/map field at level <=45; trailing bytes); the message is synthesised directly as bytes; non-trivial = >=40 levels or a mixed pattern; distinct by (type, pattern, levels, position)",
+        technique="property-based testing (rapid): synthesised deep messages, depth-band oracle (<=48 accept with the reference value, >=1024 DEPTH_LIMIT, in between either) in a worker with a bounded stack",
+        level_text="Deep messages are generated for every recursive shape and position; up to 3000 levels the reference decoder follows (value equality below 49 levels, DEPTH_LIMIT-or-correct-value in the open band, DEPTH_LIMIT from 1024 levels), beyond that only the error kind is checked. The worker runs with SetMaxStack(256 MiB) so unbounded recursion dies and is reported from the journal.",
+        level_note="The exact bound between 49 and 1023 levels is implementation-defined and not asserted; a level is one struct/list/set/map nested inside the top-level struct.",
+    ),
+    "C16": dict(
+        test="TestC16",
+        quick=dict(procs=6, checks=1500),
+        thorough=dict(procs=32, checks=10000, timeout=1500),
+        rule="rapid draws (type, value incl. holder bytes, extra buffer space 0/1/64/4096; a second type incl. nocopy fields with a well-formed or mutated message for the decode half); "
+             "non-trivial = value reaches a map or pointer and extra>0; distinct by hash(type signature, canonical output, extra)",
+        technique="property-based testing (rapid): deep snapshot (lifted value + address/len/cap of every pointer, slice, string, map header) before/after each call, guarded-arena oracle for bytes beyond n, repeat-encode canonical equality, input-buffer immutability on success and error",
+        level_text="Every EncodedSize/EncodeObject call (by pointer and by value) is bracketed by deep snapshots of the argument; the buffer lives in a guarded arena and only buf[:n] may change; three encodes must be canonically equal; DecodeObject must leave its input (and its neighbourhood) bit-identical on success and on error.",
+        level_note="Map iteration order is not part of the snapshot (entries are sorted).",
+    ),
+    "C17": dict(
+        test="TestC17",
+        quick=dict(procs=12, checks=400),
+        thorough=dict(procs=36, checks=4000, timeout=1500),
+        shard_env=[
+            {"VERIF_C17_CONTROL": "1"},
+            {"FRUGAL_MAX_INLINE_DEPTH": "2"},
+            {"FRUGAL_MAX_INLINE_DEPTH": "3", "FRUGAL_MAX_INLINE_IL_SIZE": "257"},
+            {"FRUGAL_MAX_INLINE_DEPTH": "16"},
+            {"FRUGAL_MAX_INLINE_DEPTH": "0x10", "FRUGAL_MAX_INLINE_IL_SIZE": "50000"},
+            {"FRUGAL_MAX_INLINE_DEPTH": "0b11", "FRUGAL_MAX_INLINE_IL_SIZE": "0x101"},
+            {"FRUGAL_MAX_INLINE_DEPTH": "0o17"},
+            {"FRUGAL_MAX_INLINE_DEPTH": "1_000", "FRUGAL_MAX_INLINE_IL_SIZE": "9223372036854775807"},
+            {"FRUGAL_MAX_INLINE_DEPTH": "9223372036854775807"},
+            {"FRUGAL_MAX_INLINE_IL_SIZE": "257"},
+            {"FRUGAL_MAX_INLINE_IL_SIZE": "0x101", "FRUGAL_MAX_INLINE_DEPTH": "2"},
+            {},
+        ],
+        rule="configurations = worker processes started with 12 FRUGAL_MAX_INLINE_* settings (decimal, hex, binary, octal, underscore, MaxInt64; one control process with empty environment and no legacy call); inside each, rapid draws (type, value, message, 4 lists of legacy calls: Pretouch on valid/invalid/nil/int/map arguments with option constructors at 0,-1,MaxInt..., NoJIT, setters, GetStats) placed before size, encode, decode and after; "
+             "non-trivial = non-default environment and >=3 legacy calls around the codec calls; distinct by (environment, placement, type)",
+        technique="property-based testing (rapid) over configurations: child processes per environment setting, legacy-call placements drawn per case, codec results compared with the configuration-independent reference model; API contracts of the no-op controls",
+        level_text="Each configuration process checks sizes, encoded bytes and decoded values of random (type, value, message) triples against the reference model while legacy calls are interleaved at drawn placements; since the model is the same in every process, equal-to-model in all of them means identical across settings, the control process included. Pretouch must return nil and never panic, setters return their argument, GetStats is zero.",
+        level_note="Invalid environment values panic at package init by design and are outside the property.",
+    ),
+    "C18": dict(
+        test="TestC18",
+        quick=dict(procs=6, checks=1200),
+        thorough=dict(procs=16, checks=12000, timeout=1500),
+        rule="rapid draws: 75% exhaustive table cells (9 map key kinds x 14 value forms, 14 element forms x list/set, sizes 0,1,2,8,9,130), 25% random types incl. by-value/pointer structs and holder bytes; "
+             "non-trivial = the value has a non-empty container; distinct by (type signature, encoded size)",
+        technique="property-based testing (rapid): MemStats.Mallocs delta over 64 calls after two warm-up calls (AllocsPerRun discipline) in a single-goroutine GOMAXPROCS=1 worker with GC disabled",
+        level_text="For every generated (type, value) EncodedSize(&v) and EncodeObject(buf, nil, &v) with a buffer of size+64 are each called 64 times after two warm-ups; the Mallocs delta divided by 64 must be 0 (a non-zero result is re-measured once).",
+        level_note="Escape analysis is toolchain dependent: decided for go1.23.5 only.",
+    ),
 }
